@@ -584,6 +584,99 @@ pub fn run_case(idx: u64, case: &Case, tl: Option<(&tokio::runtime::Runtime, rac
     }
 }
 
+/// Thread-local only: the caller is cancelled while its spawn request still sits in the spawner's queue (the spawner
+/// thread is provably busy: a blocker actor's handler holds the thread until the harness releases it, which it does only
+/// after the spawn future was dropped). Nothing of the abandoned actor may ever run, and nothing of it may remain.
+pub fn run_cut_queued(idx: u64, rt: &tokio::runtime::Runtime, spawner: ractor::thread_local::ThreadLocalActorSpawner) -> CaseResult {
+    let linked = idx % 2 == 0;
+    let polls = 1 + (idx / 2) % 3; // polls of the spawn future before it is dropped (all while the spawner is held)
+    let trace = Arc::new(Trace::new());
+    let mut v: Vec<(String, String)> = vec![];
+    let name = format!("c08-queued-{idx}");
+    let (tx, rxc) = std::sync::mpsc::channel::<()>();
+    let rxc = Arc::new(Mutex::new(rxc));
+    let entered = Arc::new(std::sync::atomic::AtomicBool::new(false));
+    rt.block_on(async {
+        let sup = Arc::new(ProbeSpec::new(SUP, Some(format!("c08-qsup-{idx}")), trace.clone()));
+        let (sup_ref, sup_h) = spawn_probe(&sup, None).await.expect("sup");
+        let blocker = Arc::new(ProbeSpec::new(HOLDER, Some(format!("c08-blocker-{idx}")), trace.clone()));
+        let (blk, blk_h) = spawn_tl_probe(&blocker, None, spawner.clone()).await.expect("blocker");
+        let (e2, r2) = (entered.clone(), rxc.clone());
+        let hold: Arc<dyn Fn(&ActorRef<PMsg>) + Send + Sync> = Arc::new(move |_| {
+            e2.store(true, Ordering::SeqCst);
+            let _ = r2.lock().unwrap().recv_timeout(std::time::Duration::from_secs(20));
+        });
+        let _ = blk.send_message(PMsg::Work(Work::new(&trace, 9, 0, vec![Step::Do(hold)])));
+        for _ in 0..4000 {
+            if entered.load(Ordering::SeqCst) {
+                break;
+            }
+            tokio::time::sleep(std::time::Duration::from_micros(500)).await;
+        }
+        if !entered.load(Ordering::SeqCst) {
+            v.push(("setup".into(), "the blocker never entered its handler".into()));
+        }
+        // the subject: every callback is logged by the probe itself
+        let mut subj = ProbeSpec::new(SUBJ, Some(name.clone()), trace.clone());
+        subj.pre_start = vec![Step::Join("c08q".into(), format!("g-{idx}")), Step::Yield, Step::Sleep(2)];
+        let subj = Arc::new(subj);
+        let supc = sup_ref.get_cell();
+        let (s2, sp2) = (subj.clone(), spawner.clone());
+        let fut = async move { spawn_tl_probe(&s2, if linked { Some(supc) } else { None }, sp2).await };
+        let mut m = crate::th::Manual::new(fut);
+        for _ in 0..polls {
+            if m.poll() {
+                break;
+            }
+        }
+        let completed = m.done.is_some();
+        drop(m); // the caller goes away while the request is queued
+        let t_drop = crate::trace::stamp();
+        let _ = tx.send(()); // only now may the spawner thread pick the request up
+        if completed {
+            v.push(("setup".into(), "the spawn completed although the spawner thread was held".into()));
+        }
+        tokio::time::sleep(std::time::Duration::from_millis(30)).await;
+        let recs = trace.snapshot();
+        for r in &recs {
+            if let Ev::Enter { uid: SUBJ, cb, .. } = &r.ev {
+                v.push(("callback-after-failure".into(), format!("the spawn future was dropped (#{t_drop}) while the request was still queued behind a busy spawner, yet the abandoned actor ran {cb:?} at #{}", r.ts)));
+            }
+            if let Ev::Sup { uid: SUP, who, .. } = &r.ev {
+                let _ = who;
+                v.push(("event-emitted".into(), "the intended supervisor received an event for an actor whose spawn was cancelled while queued".into()));
+            }
+        }
+        if ractor::registry::where_is(name.clone()).is_some() {
+            v.push(("name-leak".into(), format!("the name {name} of the abandoned actor is registered 30 ms after the spawner resumed")));
+        }
+        if !ractor::pg::get_scoped_members(&"c08q".to_string(), &format!("g-{idx}")).is_empty() {
+            v.push(("pg-leak".into(), "the abandoned actor is a member of the group its pre_start joins".into()));
+        }
+        // a fresh spawn under the same name succeeds
+        match spawn_tl_probe(&Arc::new(ProbeSpec::new(OTHER, Some(name.clone()), trace.clone())), None, spawner.clone()).await {
+            Ok((a, h)) => {
+                a.stop(None);
+                let _ = h.await;
+            }
+            Err(e) => v.push(("name-leak".into(), format!("a fresh spawn under the abandoned actor's name failed: {e}"))),
+        }
+        blk.stop(None);
+        let _ = blk_h.await;
+        sup_ref.stop(None);
+        let _ = sup_h.await;
+    });
+    let _ = crate::th::settle_leaks();
+    for l in vt::global_leaks() {
+        v.push(("leak".into(), l));
+    }
+    for (loc, msg) in crate::take_foreign_panics() {
+        v.push(("foreign-panic".into(), format!("{loc}: {msg}")));
+    }
+    let recs = trace.snapshot();
+    CaseResult { violations: v, recs, nontrivial: true, sig: hash_words(&[0xC0DE, linked as u64, polls]), summary: format!("cut-while-queued linked={linked} polls={polls}") }
+}
+
 pub fn run(args: &Args, rep: &mut Report) {
     let tl_env = if args.engine == "th" {
         Some((crate::th::runtime(3), ractor::thread_local::ThreadLocalActorSpawner::new()))
@@ -639,6 +732,23 @@ pub fn run(args: &Args, rep: &mut Report) {
                 scenario: format!("{case:?}"),
                 trace: Trace::render(&r.recs, 60),
             });
+        }
+    }
+    // thread-local: cancellation while the request is queued behind a busy spawner (6 variants, each shard runs them twice)
+    if let (Some((rt, sp)), None) = (&tl_env, args.replay) {
+        for rep_i in 0..2u64 {
+            for k in 0..6u64 {
+                let idx = 1_000_000 + k + 6 * (rep_i + 2 * args.shard);
+                crate::watch_begin(idx);
+                let r = run_cut_queued(idx, rt, sp.clone());
+                crate::watch_end();
+                rep.scenario(r.nontrivial, r.sig);
+                rep.count("cause_cut_while_queued", 1);
+                rep.count("events_observed", r.recs.len() as u64);
+                for (clause, detail) in r.violations {
+                    rep.violation(Violation { signature: format!("{clause} cause=CutWhileQueued"), clause, detail, scenario_seed: idx, scenario: r.summary.clone(), trace: Trace::render(&r.recs, 40) });
+                }
+            }
         }
     }
     rep.count("family_size", if args.shard == 0 { n } else { 0 });
